@@ -234,7 +234,7 @@ Qed.
 Lemma fd_bf c s : bf (fst (force_disconnect c s)) = bf s.
 Proof.
   unfold force_disconnect, reset_encryption. destruct (c_enc c); cbn [fst snd];
-    destruct (st _); cbn [start_advertising_impl handle_start_advertising fst bf set_deferred set_st];
+    destruct (st _); cbn [start_advertising_impl handle_start_advertising fst bf set_deferred set_st set_adv_ch];
     rewrite LLProofsC28Air.bf_push_event; reflexivity.
 Qed.
 
@@ -1109,3 +1109,452 @@ Qed.
 Lemma in_conn_of s : st s = Connecting \/ st s = Connected -> in_connection s = true.
 Proof. unfold in_connection. intros [-> | ->]; reflexivity. Qed.
 
+
+(* ========================================================================================== a connection event (continued) *)
+Definition cpr_req_pdu (p : procs) : list N :=
+  [GenLL.LL_CONNECTION_PARAM_REQ; lo8 (prop_min p); hi8 (prop_min p); lo8 (prop_max p); hi8 (prop_max p);
+   lo8 (prop_lat p); hi8 (prop_lat p); lo8 (prop_to p); hi8 (prop_to p); 0; 0; 0] ++ repeat 255 12.
+
+Lemma tpcp_form c s : cfg_ok27 c = true -> phy_pending (pr s) = false -> ver_pending (pr s) = false ->
+  transmit_pending_control_pdus c s =
+    if cpr_pending (pr s) && txa s
+    then commit_ctrl (upd_pr (set_proc_timeout s GenLL.default_procedure_timeout_us) (fun q => set_cpr_running (set_cpr_pending q false) true))
+                     (cpr_req_pdu (pr s))
+    else s.
+Proof.
+  intros Hc Hp Hv. unfold transmit_pending_control_pdus, tx_buffer_available, txa. rewrite Hp, Hv.
+  assert (A : match c_cpr c with CprAsync => ap_pending (ac s) | _ => false end = false)
+    by (unfold cfg_ok27 in Hc; destruct (c_cpr c); [reflexivity|reflexivity|discriminate]).
+  rewrite A. destruct (cpr_pending (pr s)); cbn [negb andb]; [|reflexivity].
+  destruct (tx_avail (bf s)); reflexivity.
+Qed.
+
+Lemma own_pdu_form m : m_phy m = None -> m_ver m = false -> m_acpr m = None ->
+  own_pdu m = match m_cpr m with
+              | Some (a, b, l, t) =>
+                  Some (EExact ([15; a mod 256; (a / 256) mod 256; b mod 256; (b / 256) mod 256; l mod 256; (l / 256) mod 256;
+                                 t mod 256; (t / 256) mod 256; 0; 0; 0] ++ repeat 255 12), arm (set_m_cpr m None) 15)
+              | None => None
+              end.
+Proof. intros H1 H2 H3. unfold own_pdu. rewrite H1, H2, H3. destruct (m_cpr m) as [[[[a b] l] t]|]; reflexivity. Qed.
+
+Lemma lo8_mod x : (x mod 65536) mod 256 = lo8 x. Proof. unfold lo8. nlia. Qed.
+Lemma hi8_mod x : ((x mod 65536) / 256) mod 256 = hi8 x. Proof. unfold hi8. nlia. Qed.
+
+
+
+Ltac psimp :=
+  cbn [st adv_ch chan sca tm cs proc_timeout def_instant deferred term_sent used_features pending_event disc_reason pr bf sc ac ring
+       set_st set_adv_ch set_chan set_sca set_tm set_cs set_proc_timeout set_def_instant set_deferred set_term_sent set_used_features
+       set_pending_event set_disc_reason set_pr set_bf set_sc set_ac set_ring upd_tm upd_cs upd_pr upd_bf upd_sc upd_ac
+       tw_off tw_size interval latency timeout_value conn_timeout ch_idx evc tsle last_lat
+       prop_min prop_max prop_lat prop_to cpr_pending cpr_running cpr_sig phy_pending phy_tx phy_rx ver_pending ver_received
+       set_cpr_pending set_cpr_running set_cpr_sig set_ver_pending set_ver_received
+       rxq txq fl stopped tx_avail set_rxq set_txq has_key enc_prog is_enc key_known
+       m_conn m_stop m_txa m_rx m_exp m_ver_rcv m_ver_sent m_used m_cpr m_phy m_ver m_acpr m_timer m_owner m_t
+       set_m_conn set_m_stop set_m_txa set_m_rx set_m_exp set_m_ver_rcv set_m_ver_sent set_m_used set_m_cpr set_m_phy set_m_ver
+       set_m_acpr set_m_timer set_m_owner set_m_t arm lstate_eqb negb].
+
+Lemma fd_st27 c s : st (fst (force_disconnect c s)) = Advertising.
+Proof.
+  unfold force_disconnect. destruct (reset_encryption c s) as [s1 i1]. destruct (st s1); reflexivity.
+Qed.
+
+Lemma ev_go c (Hc : cfg_ok27 c = true) s3 m2 e due it1 s9 it9 :
+  PR c s3 m2 -> own_ok s3 m2 -> st s3 = Connected -> tw_size (tm s3) = 0 -> disc_reason s3 = 8 -> enc_prog (sc s3) = false ->
+  m_conn m2 = true -> m_stop m2 = false ->
+  Matches c due (ctrl (unaired s3)) ->
+  (m_ver_sent m2 = true -> nver due = 0%nat) -> (nver due <= 1)%nat -> (ver_received (pr s3) = false -> nver due = 0%nat) ->
+  (proc_timeout s3 <> 0 -> m_t m2 = tsle (cs s3)) ->
+  has_adv it1 = false ->
+  end_event_continue c s3 e = Some (s9, it9) ->
+  exists m',
+    (let due22 := negb (m_timer m2 =? 0) && (m_timer m2 <=? m_t m2) in
+     if has_adv (it1 ++ snd (end_event_epilogue c s9 it9))
+     then if due22 then (Ok, ended c m2)
+          else if has_closed (it1 ++ snd (end_event_epilogue c s9 it9)) 34 then (Bad 6, m2) else (Ok, ended c m2)
+     else if due22 then (Bad 5, m2)
+     else let m3 := if m_timer m2 =? 0 then m2 else set_m_timer m2 (m_timer m2 - m_t m2) in
+          let '(due', m4) := if m_txa m3 then match own_pdu m3 with Some (e0, m') => (due ++ [e0], m') | None => (due, m3) end else (due, m3) in
+          (Ok, with_t (set_m_exp m4 due') (it1 ++ snd (end_event_epilogue c s9 it9)))) = (Ok, m')
+    /\ (Loose m' \/ Tight c (fst (end_event_epilogue c s9 it9)) m').
+Proof.
+  intros HPR HO Hst Htw Hdr Hep Hcn Hsp HM V1 V2 V3 Ht Ha E.
+  pose proof HPR as (P1 & P2 & P3 & P4 & P5 & P6 & P7 & P8 & P9 & P10 & P11 & P12).
+  destruct HO as (O1 & O2 & O3 & O4 & O5 & O6).
+  unfold end_event_continue in E.
+  assert (ED : negb (m_timer m2 =? 0) && (m_timer m2 <=? m_t m2) = procedure_timed_out s3).
+  { unfold procedure_timed_out. rewrite P6. destruct (proc_timeout s3 =? 0) eqn:E0; [reflexivity|]. apply N.eqb_neq in E0. rewrite (Ht E0). reflexivity. }
+  cbv zeta. rewrite ED. destruct (procedure_timed_out s3) eqn:D.
+  - (* the procedure response timeout *)
+    inversion E as [E']. unfold force_disconnect_reason in E'.
+    pose proof (fd_st27 c (set_disc_reason s3 GenLL.connection_ll_response_timeout)) as F1.
+    pose proof (fd_has_adv c (set_disc_reason s3 GenLL.connection_ll_response_timeout)) as F2.
+    rewrite E' in F1, F2. cbn [fst snd] in F1, F2.
+    unfold end_event_epilogue. rewrite F1. cbn [flush_events snd fst].
+    rewrite !has_adv_app, F2, orb_true_r. exists (ended c m2). split; [reflexivity|left; left; reflexivity].
+  - (* the event goes on *)
+    set (s5 := if negb (proc_timeout s3 =? 0) then set_proc_timeout s3 (proc_timeout s3 - tsle (cs s3)) else s3) in *.
+    assert (Etp : transmit_pending_security_pdus c s5 = (s5, [])).
+    { unfold transmit_pending_security_pdus. replace (enc_prog (sc s5)) with false by (subst s5; destruct (proc_timeout s3 =? 0); cbn [negb]; symmetry; exact Hep).
+      rewrite andb_false_r. reflexivity. }
+    rewrite Etp in E.
+    destruct (plan_next_connection_event c s5 _) as [s7|] eqn:E7; cbn [obind] in E; [|discriminate].
+    apply plan_next_frame in E7. destruct E7 as [k E7].
+    unfold pending_then_setup, handle_pending_ll_control in E.
+    assert (D7 : deferred s7 = None) by (subst s7 s5; destruct (proc_timeout s3 =? 0); cbn [negb]; exact P8).
+    rewrite D7 in E. cbn [obind] in E.
+    destruct (setup_next_connection_event s7) as [[s8 it8]|] eqn:E8; cbn [obind] in E; [|discriminate].
+    pose proof (setup_next_mid s7 s8 it8 E8) as MID. apply setup_next_frame in E8. destruct E8 as [E8 _].
+    destruct MID as (ch & ws & we & Eit & Emid); [subst s7 s5; destruct (proc_timeout s3 =? 0); cbn [negb]; exact Htw|].
+    cbn [app] in E. inversion E; subst s9 it9; clear E.
+    unfold end_event_epilogue.
+    assert (S8 : st s8 = Connected) by (subst s8 s7 s5; destruct (proc_timeout s3 =? 0); cbn [negb]; exact Hst). rewrite S8.
+    assert (Pp : phy_pending (pr s8) = false) by (subst s8 s7 s5; destruct (proc_timeout s3 =? 0); cbn [negb]; exact O2).
+    assert (Pv : ver_pending (pr s8) = false) by (subst s8 s7 s5; destruct (proc_timeout s3 =? 0); cbn [negb]; exact O4).
+    rewrite (tpcp_form c s8 Hc Pp Pv).
+    assert (Pc : cpr_pending (pr s8) = cpr_pending (pr s3)) by (subst s8 s7 s5; destruct (proc_timeout s3 =? 0); cbn [negb]; reflexivity).
+    assert (Px : txa s8 = txa s3) by (subst s8 s7 s5; destruct (proc_timeout s3 =? 0); cbn [negb]; reflexivity).
+    rewrite Pc, Px.
+    set (m3 := if m_timer m2 =? 0 then m2 else set_m_timer m2 (m_timer m2 - m_t m2)).
+    assert (M3 : m_txa m3 = txa s3 /\ m_phy m3 = None /\ m_ver m3 = false /\ m_acpr m3 = None /\ m_cpr m3 = m_cpr m2)
+      by (subst m3; destruct (m_timer m2 =? 0); cbn; auto).
+    destruct M3 as (M3a & M3b & M3c & M3d & M3e).
+    rewrite M3a, (own_pdu_form m3 M3b M3c M3d), M3e, O1.
+    destruct (cpr_pending (pr s3) && txa s3) eqn:OWN.
+    + (* the own connection parameter request goes out and arms the timer *)
+      apply andb_prop in OWN. destruct OWN as [CP TX]. rewrite CP, TX. cbn beta iota.
+      set (e0 := EExact ([15; (prop_min (pr s3) mod 65536) mod 256; (prop_min (pr s3) mod 65536 / 256) mod 256;
+                          (prop_max (pr s3) mod 65536) mod 256; (prop_max (pr s3) mod 65536 / 256) mod 256;
+                          (prop_lat (pr s3) mod 65536) mod 256; (prop_lat (pr s3) mod 65536 / 256) mod 256;
+                          (prop_to (pr s3) mod 65536) mod 256; (prop_to (pr s3) mod 65536 / 256) mod 256; 0; 0; 0] ++ repeat 255 12)).
+      set (sX := upd_pr (set_proc_timeout s8 GenLL.default_procedure_timeout_us) (fun q => set_cpr_running (set_cpr_pending q false) true)).
+      assert (StX : stopped (bf sX) = false) by (subst sX s8 s7 s5; destruct (proc_timeout s3 =? 0); exact P10).
+      assert (WX : WFb sX) by (subst sX s8 s7 s5; destruct (proc_timeout s3 =? 0); exact P11).
+      destruct (LLProofsC28Air.unaired_commit sX (3, cpr_req_pdu (pr s8)) WX StX) as (U & W2 & S2 & T2).
+      unfold commit_ctrl. change GenLL.ll_control_pdu_code with 3.
+      set (s10 := commit sX (3, cpr_req_pdu (pr s8))) in *.
+      assert (E10 : s10 = set_bf sX (bf s10)) by (subst s10; rewrite (commit_eq sX _ StX); reflexivity).
+      assert (R10 : rxq (bf s10) = rxq (bf s3)) by (subst s10; rewrite (commit_eq sX _ StX); subst sX s8 s7 s5; destruct (proc_timeout s3 =? 0); reflexivity).
+      assert (LC : last_ce (it1 ++ it8 ++ map ICb (ring s10)) = Some (ws, we)).
+      { rewrite Eit. apply (last_ce_pick it1 ch ws we (interval (tm s7)) (map ICb (ring s10))). clear. induction (ring s10); [reflexivity|assumption]. }
+      assert (HA : has_adv (it1 ++ it8 ++ map ICb (ring s10)) = false)
+        by (rewrite !has_adv_app, Ha, Eit, has_adv_cbs; reflexivity).
+      cbn [flush_events fst snd]. rewrite HA. unfold with_t. rewrite LC.
+      eexists. split; [reflexivity|]. right.
+      assert (Emid' : (ws + we) / 2 = tsle k) by (rewrite Emid; subst s7; reflexivity).
+      assert (UX : unaired sX = unaired s3) by (subst sX s8 s7 s5; destruct (proc_timeout s3 =? 0); reflexivity).
+      assert (Me0 : matches c e0 (cpr_req_pdu (pr s8)) = true).
+      { subst e0. cbn [matches]. rewrite !lo8_mod, !hi8_mod. subst s8 s7 s5. destruct (proc_timeout s3 =? 0); apply bytes_eqb_refl. }
+      clear Emid LC HA Eit S8 Pp Pv Pc Px M3a M3b M3c M3d M3e ED D.
+      unfold Tight. rewrite E10. unfold PR, own_ok, txa, WFb in *. psimp.
+      change (unaired (set_ring (set_bf sX (bf s10)) [])) with (unaired s10). rewrite U, UX, ctrl_app, nver_app.
+      assert (T10 : tx_avail (bf s10) = tx_avail (bf s3)) by (rewrite T2; subst sX s8 s7 s5; destruct (proc_timeout s3 =? 0); reflexivity).
+      clear T2. rewrite R10. rewrite E10 in W2. cbn [bf set_bf] in W2, S2.
+      subst m3 sX s8 s7 s5. rewrite P6.
+      destruct (proc_timeout s3 =? 0) eqn:EZ; psimp;
+        (split; [exact Hcn|]); (split; [exact Hsp|]);
+        (split; [repeat split; try assumption; try reflexivity; try (rewrite T10; exact P2)|]);
+        (split; [repeat split; assumption|]);
+        (split; [right; exact Hst|]);
+        (split; [apply Forall2_app; [exact HM|constructor; [exact Me0|constructor]]|]);
+        (split; [intros F; rewrite (V1 F); reflexivity|]);
+        (split; [change (nver [e0]) with 0%nat; rewrite Nat.add_0_r; exact V2|]);
+        (split; [intros F; rewrite (V3 F); reflexivity|]);
+        (split; [intros _; split; [exact Htw|exact Emid']|]);
+        (split; [intros F; rewrite Hst in F; discriminate F|]);
+        (split; [exact Hdr|]); (split; [reflexivity|exact Hep]).
+    + (* no own request goes out *)
+      assert (LC : last_ce (it1 ++ it8 ++ map ICb (ring s8)) = Some (ws, we)).
+      { rewrite Eit. apply (last_ce_pick it1 ch ws we (interval (tm s7)) (map ICb (ring s8))). clear. induction (ring s8); [reflexivity|assumption]. }
+      assert (HA : has_adv (it1 ++ it8 ++ map ICb (ring s8)) = false)
+        by (rewrite !has_adv_app, Ha, Eit, has_adv_cbs; reflexivity).
+      assert (FIN : Tight c (set_ring s8 []) (set_m_t (set_m_exp m3 due) ((ws + we) / 2))).
+      { assert (Emid' : (ws + we) / 2 = tsle k) by (rewrite Emid; subst s7; reflexivity).
+        clear Emid LC HA Eit S8 Pp Pv Pc Px M3a M3b M3c M3d M3e OWN ED D.
+        unfold Tight. subst m3 s8 s7 s5. rewrite P6.
+        destruct (proc_timeout s3 =? 0) eqn:EZ; psimp;
+          (split; [exact Hcn|]); (split; [exact Hsp|]);
+          (split; [unfold PR, txa, WFb in *; psimp; repeat split; try assumption; try (rewrite (Ht (proj1 (N.eqb_neq _ _) EZ)); reflexivity)|]);
+          (split; [unfold own_ok; psimp; repeat split; assumption|]);
+          (split; [right; exact Hst|]);
+          (split; [exact HM|]);
+          (split; [exact V1|]); (split; [exact V2|]); (split; [exact V3|]);
+          (split; [intros _; split; [exact Htw|exact Emid']|]);
+          (split; [intros F; rewrite Hst in F; discriminate F|]);
+          (split; [exact Hdr|]); (split; [reflexivity|exact Hep]). }
+      cbn [flush_events fst snd]. rewrite HA. unfold with_t. rewrite LC.
+      destruct (cpr_pending (pr s3)) eqn:CP; destruct (txa s3) eqn:TX; try discriminate OWN; cbn beta iota;
+        (eexists; split; [reflexivity|right; exact FIN]).
+Qed.
+
+Section Ev.
+Variable c : cfg.
+Hypothesis Hc : cfg_ok27 c = true.
+
+Lemma ev_tight s m e pdus s' it :
+  G c s m -> Tight c s m -> forallb pdu_ok27 pdus = true ->
+  lstep c s (Ev e pdus) = (s', OItems it) ->
+  exists m', mstep27 c m (Ev e pdus) (OItems it) = (Ok, m') /\ (Loose m' \/ Tight c s' m').
+Proof.
+  intros HG (T1 & T2 & HPR & HO & Tst & TM & TV1 & TV2 & TV3 & TT & TC & TD & TR & TE) Hpd H.
+  pose proof HPR as (P1 & P2 & P3 & P4 & P5 & P6 & P7 & P8 & P9 & P10 & P11 & P12).
+  cbn [lstep] in H. rewrite (in_conn_of s Tst) in H.
+  destruct (existsb (fun p : N * list N => 27 <? N.of_nat (length (snd p))) pdus); [discriminate|].
+  destruct (radio_event _ s pdus) as [s1 it1] eqn:E1.
+  destruct (do_end_event c s1 e) as [[s2 it2]|] eqn:E2; [|discriminate]. inversion H; subst s2 it; clear H.
+  assert (Hf : (length pdus + length (unaired s) < S (length pdus + length (txq (bf s))))%nat)
+    by (clear; pose proof (LLProofsC28Air.unaired_le_txq s); lia).
+  destruct (LLProofsC28Air.radio_event_air _ s pdus s1 it1 Hf P11 E1) as (A1 & A2 & A3 & A4 & A5 & A6 & A7).
+  destruct (radio_event_rx _ s pdus s1 it1 Hf P11 E1) as (b1 & Eb1 & Rb1).
+  pose proof (end_event_notx c s1 e s' it2 E2) as NX.
+  unfold mstep27. rewrite T1, T2. cbn [negb].
+  rewrite tx3_app, (tx3_notx it2 NX), app_nil_r.
+  replace (tx3 it1) with (ctrl (unaired s)) by (rewrite A1; symmetry; apply tx3_air).
+  rewrite (judge_air_ok c (m_exp m) (ctrl (unaired s)) (m_ver_sent m) TM TV1 TV2).
+  set (vs := m_ver_sent m || negb (Nat.eqb (nver (m_exp m)) 0)).
+  fold (deliver pdus).
+  set (m1 := set_m_ver_sent (set_m_exp (set_m_rx m (m_rx m ++ deliver pdus)) []) vs).
+  (* the model's end_event *)
+  assert (Tst1 : st s1 = Connecting \/ st s1 = Connected) by (rewrite A5; exact Tst).
+  destruct (prologue_form c s1 Tst1) as (rr & Esp & Err).
+  unfold do_end_event in E2. rewrite Esp in E2.
+  set (sp := set_ring (upd_tm (set_st (set_pending_event s1 false) Connected) (fun t => set_tw_size t 0)) rr) in *.
+  destruct (end_event_body c sp e) as [[s9 it9]|] eqn:EB; cbn [obind] in E2; [|discriminate].
+  unfold end_event_body in EB. change (st sp) with Connected in EB. cbn [lstate_eqb andb] in EB.
+  assert (HPR1 : PR c sp m1).
+  { unfold PR. subst sp m1. rewrite Eb1. unfold txa, WFb in *. rewrite Eb1 in A3, A7. 
+    cbn [m_rx m_txa m_ver_rcv m_ver_sent m_used m_timer m_owner set_m_ver_sent set_m_exp set_m_rx
+         bf set_bf set_ring upd_tm set_tm set_st set_pending_event pr used_features proc_timeout deferred st lstate_eqb rxq stopped tx_avail] in *.
+    rewrite Rb1, P1. repeat split; try assumption; try reflexivity; try congruence.
+    - intros F. subst vs. rewrite (P4 F), (TV3 F). reflexivity.
+    - rewrite Eb1 in A6. cbn [bf set_bf] in A6. congruence.
+    - apply Forall_app. split; [exact P12|apply deliver_ok; exact Hpd]. }
+  destruct (handle_received_data (S (length (rxq (bf sp)))) c sp) as [[s3 it3] res] eqn:E3.
+  assert (Elen : length (rxq (bf sp)) = length (m_rx m ++ deliver pdus)).
+  { subst sp. rewrite Eb1. cbn [bf set_bf set_ring upd_tm set_tm set_st set_pending_event]. rewrite Rb1, P1. reflexivity. }
+  rewrite <- Elen.
+  destruct (process27 (S (length (rxq (bf sp)))) c m1 (cpr_callbacks (it1 ++ it2)) []) as [[m2 due] p] eqn:EP.
+  pose proof (process_sim c Hc _ sp m1 _ [] s3 it3 res m2 due p HPR1 E3 EP) as HPost.
+  destruct p.
+  - (* PGo *)
+    destruct HPost as (Hres & Hit3 & HPR3 & SF & MF & Hmono & Htm & new & accn & U3 & Hdue & HM3 & (VK1 & VK2) & VK3).
+    subst res it3. cbn [app] in Hdue. subst due.
+    destruct SF as (SF1 & SF2 & SF3 & SF4 & SF5 & SF6 & SF7 & SF8 & SF9 & SF10 & SF11 & SF12 & SF13 & SF14 & SF15).
+    destruct MF as (MF1 & MF2 & MF3 & MF4 & MF5 & MF6 & MF7 & MF8 & MF9 & MF10).
+    assert (St3 : st s3 = Connected) by (rewrite SF1; reflexivity).
+    unfold send_control_pdus in EB. rewrite St3 in EB. cbn [lstate_eqb andb] in EB.
+    destruct (end_event_continue c s3 e) as [[s8 it8]|] eqn:EC; cbn [obind] in EB; [|discriminate].
+    cbn [app] in EB. inversion EB; subst s9 it9; clear EB.
+    assert (E2' : end_event_epilogue c s8 it8 = (s', it2)) by (clear - E2; congruence). clear E2.
+    destruct HO as (O1 & O2 & O3 & O4 & O5 & O6).
+    assert (PRS : pr sp = pr s) by (subst sp; rewrite Eb1; reflexivity).
+    assert (CSS : cs sp = cs s) by (subst sp; rewrite Eb1; reflexivity).
+    assert (PTS : proc_timeout sp = proc_timeout s) by (subst sp; rewrite Eb1; reflexivity).
+    assert (N01 : nver accn = 1%nat -> False \/ nver accn = 1%nat) by auto.
+    assert (NV : forall (P : Prop), (nver accn = 1%nat -> P -> False) -> P -> nver accn = 0%nat).
+    { intros P HP Pp. destruct (nver accn) as [|[|n]] eqn:EN; [reflexivity|exfalso; apply (HP eq_refl Pp)|clear - VK1; lia]. }
+    pose proof (ev_go c Hc s3 m2 e accn it1 s8 it8 HPR3) as GO.
+    rewrite E2' in GO. cbn [fst snd] in GO. apply GO; clear GO.
+    + unfold own_ok. rewrite MF5, MF6, MF7, MF8, SF7, SF8, SF9, SF10, SF11, SF12, SF13, PRS. subst m1. cbn [m_cpr m_phy m_ver m_acpr set_m_ver_sent set_m_exp set_m_rx].
+      repeat split; assumption.
+    + exact St3.
+    + rewrite SF3. reflexivity.
+    + rewrite SF4. subst sp. rewrite Eb1. exact TD.
+    + rewrite SF5. subst sp. rewrite Eb1. exact TE.
+    + rewrite MF1. exact T1.
+    + rewrite MF2. exact T2.
+    + rewrite U3. change (unaired sp) with (unaired s1). rewrite A2. exact HM3.
+    + intros F. apply (NV (m_ver_sent m2 = true)); [|exact F]. intros E1' _.
+      destruct HPR1 as (_ & _ & _ & Q4 & _). specialize (Q4 (VK2 E1')). rewrite MF4 in F. congruence.
+    + exact VK1.
+    + intros F. apply (NV (ver_received (pr s3) = false)); [|exact F]. intros E1' _. specialize (VK3 E1'). congruence.
+    + intros F. rewrite MF10. subst m1. cbn [m_t set_m_ver_sent set_m_exp set_m_rx]. rewrite SF2, CSS.
+      assert (F' : proc_timeout s <> 0) by (destruct Htm as [Htm|Htm]; [rewrite Htm, PTS in F; exact F|congruence]).
+      destruct Tst as [Tc|Tc]; [exfalso; apply F'; apply TC; exact Tc|]. destruct (TT Tc) as [_ TT2]. exact TT2.
+    + rewrite A1. apply has_adv_air.
+    + exact EC.
+  - (* PStop *) eexists. split; [reflexivity|]. left. destruct (has_adv _); [left; reflexivity|right; reflexivity].
+  - (* PClosed *) eexists. split; [reflexivity|]. left. left. reflexivity.
+Qed.
+End Ev.
+
+(* ========================================================================================== a missed event *)
+Lemma fd_closed_reason c s :
+  ring s = [] -> disc_reason s <> 34 ->
+  has_closed (snd (force_disconnect c s) ++ map ICb (ring (fst (force_disconnect c s)))) 34 = false.
+Proof.
+  intros Hr Hd. unfold force_disconnect, reset_encryption, reset_phy, push_event.
+  destruct (c_enc c); destruct (c_phy c); destruct (st s) eqn:S; destruct (c_cb c);
+    cbn [fst snd upd_sc set_sc st ring disc_reason start_advertising_impl handle_start_advertising set_deferred set_st set_adv_ch set_ring];
+    rewrite ?S; cbn [fst snd ring set_ring set_deferred set_st set_adv_ch start_advertising_impl handle_start_advertising]; rewrite ?Hr;
+    cbn [length N.of_nat]; try change (0 <? GenLL.max_events) with true; cbn [ring set_ring upd_sc set_sc app map has_closed existsb orb]; try reflexivity;
+    try (replace (disc_reason s =? 34) with false by (symmetry; apply N.eqb_neq; exact Hd); reflexivity);
+    rewrite ?Hr; reflexivity.
+Qed.
+
+Lemma timeout_tight c s m s' it :
+  Tight c s m -> lstep c s Timeout = (s', OItems it) ->
+  exists m', mstep27 c m Timeout (OItems it) = (Ok, m') /\ (Loose m' \/ Tight c s' m').
+Proof.
+  intros (T1 & T2 & HPR & HO & Tst & TM & TV1 & TV2 & TV3 & TT & TC & TD & TR & TE) H.
+  pose proof HPR as (P1 & P2 & P3 & P4 & P5 & P6 & P7 & P8 & P9 & P10 & P11 & P12).
+  cbn [lstep] in H. rewrite (in_conn_of s Tst) in H.
+  destruct (do_timeout c s) as [[s2 it2]|] eqn:E; cbn [ok_items] in H; [|discriminate]. inversion H; subst s2 it2; clear H.
+  unfold mstep27. rewrite T1, T2. cbn [negb].
+  assert (ED : negb (m_timer m =? 0) && (m_timer m <=? m_t m) = negb (proc_timeout s =? 0) && (proc_timeout s <=? tsle (cs s))).
+  { rewrite P6. destruct (proc_timeout s =? 0) eqn:E0; [reflexivity|]. apply N.eqb_neq in E0.
+    destruct Tst as [Tc|Tc]; [exfalso; apply E0; apply TC; exact Tc|]. destruct (TT Tc) as [_ ->]. reflexivity. }
+  cbv zeta. rewrite ED. clear ED.
+  unfold do_timeout, force_disconnect_reason in E.
+  change (st (set_pending_event s false)) with (st s) in E.
+  assert (ND : lstate_eqb (st s) Disconnecting = false) by exact P9.
+  rewrite ND in E. cbn [andb] in E.
+  change (proc_timeout (set_pending_event s false)) with (proc_timeout s) in E.
+  change (tsle (cs (set_pending_event s false))) with (tsle (cs s)) in E.
+  destruct (negb (proc_timeout s =? 0) && (proc_timeout s <=? tsle (cs s))) eqn:D.
+  - (* the procedure response timeout *)
+    cbn [obind] in E.
+    pose proof (fd_st27 c (set_disc_reason (set_pending_event s false) GenLL.connection_ll_response_timeout)) as F1.
+    pose proof (fd_has_adv c (set_disc_reason (set_pending_event s false) GenLL.connection_ll_response_timeout)) as F2.
+    destruct (force_disconnect c _) as [sa ia]. cbn [fst snd] in F1, F2. cbn [flush_events] in E. inversion E; subst s' it; clear E.
+    rewrite has_adv_app, F2. cbn [orb negb]. rewrite andb_false_r. eexists. split; [reflexivity|left; left; reflexivity].
+  - destruct (dt_mul _ _) as [five|]; cbn [obind] in E; [|discriminate].
+    destruct ((tsle (cs s) <? conn_timeout (tm (set_pending_event s false))) && negb (lstate_eqb (st s) Connecting && (five <=? tsle (cs s)))).
+    + (* the next event is scheduled *)
+      destruct (plan_after_timeout _) as [s1|] eqn:E1; cbn [obind] in E; [|discriminate].
+      unfold plan_after_timeout in E1. destruct (dt_add _ _) as [t|] eqn:Et; cbn [obind] in E1; [|discriminate]. inversion E1 as [E1']. clear E1.
+      unfold pending_then_setup, handle_pending_ll_control in E.
+      assert (D1 : deferred s1 = None) by (subst s1; exact P8). rewrite D1 in E. cbn [obind] in E.
+      destruct (setup_next_connection_event s1) as [[s8 it8]|] eqn:E8; cbn [obind] in E; [|discriminate].
+      pose proof (setup_next_mid s1 s8 it8 E8) as MID. apply setup_next_frame in E8. destruct E8 as [E8 (ch & ws & we & Eit)].
+      cbn [app flush_events] in E. inversion E; subst s' it; clear E.
+      assert (R8 : ring s8 = []) by (subst s8 s1; exact TR). rewrite R8, Eit. cbn [map app has_adv existsb orb].
+      eexists. split; [reflexivity|]. right.
+      unfold with_t. cbn [last_ce fold_left].
+      unfold Tight, PR, own_ok, txa, WFb in *. subst s8 s1.
+      change (unaired (set_ring (set_pending_event (upd_cs (set_pending_event s false) (fun c0 => mk_cstate ((ch_idx c0 + 1) mod 37) (u16 (evc c0 + 1)) t (last_lat c0))) true) []))
+        with (unaired s).
+      psimp.
+      split; [exact T1|]. split; [exact T2|]. split; [repeat split; assumption|]. split; [exact HO|]. split; [exact Tst|].
+      split; [exact TM|]. split; [exact TV1|]. split; [exact TV2|]. split; [exact TV3|].
+      split; [intros Tc; destruct (TT Tc) as [TT1 _]; split; [exact TT1|]; destruct (MID TT1) as (ch' & ws' & we' & Eq & Em); rewrite Eit in Eq; inversion Eq; subst; cbn [tsle cs upd_cs set_cs set_pending_event] in Em; exact Em|].
+      split; [exact TC|]. split; [exact TD|]. split; [reflexivity|exact TE].
+    + (* supervision timeout *)
+      pose proof (fd_st27 c (set_pending_event s false)) as F1.
+      pose proof (fd_has_adv c (set_pending_event s false)) as F2.
+      pose proof (fd_closed_reason c (set_pending_event s false) TR) as F3.
+      destruct (force_disconnect c _) as [sa ia]. cbn [fst snd] in F1, F2, F3. cbn [flush_events] in E. inversion E; subst s' it; clear E.
+      rewrite has_adv_app, F2. cbn [orb]. rewrite F3; [|change (disc_reason (set_pending_event s false)) with (disc_reason s); rewrite TD; discriminate].
+      cbn [andb]. eexists. split; [reflexivity|left; left; reflexivity].
+Qed.
+
+(* ========================================================================================== the other operations *)
+Lemma other_tight c s m o s' r :
+  cfg_ok27 c = true -> Tight c s m -> lstep c s o = (s', r) -> r <> OCrash ->
+  match o with Ev _ _ | Timeout | PhyReq _ _ | VerReq => False | _ => True end ->
+  exists m', mstep27 c m o r = (Ok, m') /\ (Loose m' \/ Tight c s' m').
+Proof.
+  intros Hc HT H Hr Ho.
+  pose proof HT as (T1 & T2 & HPR & HO & Tst & TM & TV1 & TV2 & TV3 & TT & TC & TD & TR & TE).
+  pose proof HPR as (P1 & P2 & P3 & P4 & P5 & P6 & P7 & P8 & P9 & P10 & P11 & P12).
+  pose proof HO as (O1 & O2 & O3 & O4 & O5 & O6).
+  pose proof (in_conn_of s Tst) as IC.
+  assert (NI : st s <> Initial /\ st s <> Advertising) by (destruct Tst as [-> | ->]; split; discriminate).
+  destruct o; try contradiction; cbn [lstep] in H.
+  - (* Run *) destruct (st s) eqn:S; try (exfalso; apply (proj1 NI); reflexivity); inversion H; subst; exists m; (split; [reflexivity|right; exact HT]).
+  - (* AdvTimeout *) destruct (st s) eqn:S; try (exfalso; apply (proj2 NI); reflexivity); inversion H; subst; exists m; (split; [reflexivity|right; exact HT]).
+  - (* Adv *) destruct (st s) eqn:S; try (exfalso; apply (proj2 NI); reflexivity); inversion H; subst; exists m; (split; [reflexivity|right; exact HT]).
+  - (* Disconnect *) rewrite IC in H. destruct (reset_encryption c _) as [s2 it2]. inversion H; subst.
+    unfold mstep27. rewrite T1, T2. cbn [negb]. eexists. split; [reflexivity|left; right; reflexivity].
+  - (* Cpu *) rewrite IC in H. unfold mstep27. rewrite T1, T2. cbn [negb].
+    destruct (bit (used_features s) _).
+    + destruct (cpr_pending (pr s)) eqn:CP.
+      * inversion H; subst. eexists. split; [reflexivity|right; exact HT].
+      * inversion H; subst. eexists. split; [reflexivity|right].
+        unfold Tight, PR, own_ok, txa, WFb in *. change (unaired (upd_pr s (fun p => mk_procs a b c0 d true (cpr_running p) true (phy_pending p) (phy_tx p) (phy_rx p) (ver_pending p) (ver_received p)))) with (unaired s).
+        psimp. repeat split; try assumption; try reflexivity; try (eapply proj1; apply TT; assumption); try (eapply proj2; apply TT; assumption).
+    + inversion H; subst. eexists. split; [reflexivity|right; exact HT].
+  - (* Cpr *) rewrite IC in H. unfold mstep27. rewrite T1, T2. cbn [negb].
+    destruct (cpr_pending (pr s) || negb (proc_timeout s =? 0)) eqn:CP.
+    + inversion H; subst. eexists. split; [reflexivity|right; exact HT].
+    + inversion H; subst. eexists. split; [reflexivity|right].
+      unfold Tight, PR, own_ok, txa, WFb in *. change (unaired (upd_pr s (fun p => mk_procs a b c0 d true (cpr_running p) (cpr_sig p) (phy_pending p) (phy_tx p) (phy_rx p) (ver_pending p) (ver_received p)))) with (unaired s).
+      psimp. repeat split; try assumption; try reflexivity; try (eapply proj1; apply TT; assumption); try (eapply proj2; apply TT; assumption).
+  - (* TxAvail *) inversion H; subst. unfold mstep27. eexists. split; [reflexivity|right].
+    unfold Tight, PR, own_ok, txa, WFb in *.
+    change (unaired (upd_bf s (fun x => set_tx_avail x b))) with (unaired s).
+    psimp. cbn [set_tx_avail tx_avail rxq txq fl stopped]. repeat split; try assumption; try reflexivity; try (eapply proj1; apply TT; assumption); try (eapply proj2; apply TT; assumption).
+  - (* Cancel *) destruct (do_cancel c s b us) as [[s2 it2]|]; cbn [ok_items] in H; inversion H; subst; [|congruence].
+    unfold mstep27. rewrite T1, T2. cbn [negb]. eexists. split; [reflexivity|left; right; reflexivity].
+  - (* CprReply *) unfold cfg_ok27 in Hc. destruct (c_cpr c); try discriminate; inversion H; subst; exists m; (split; [reflexivity|right; exact HT]).
+  - (* CprNeg *) unfold cfg_ok27 in Hc. destruct (c_cpr c); try discriminate; inversion H; subst; exists m; (split; [reflexivity|right; exact HT]).
+  - (* Key *) inversion H; subst. exists m. split; [reflexivity|right]. exact HT.
+  - (* St *) inversion H; subst. exists m. split; [reflexivity|right; exact HT].
+Qed.
+
+(* ========================================================================================== one operation, any number of operations *)
+Lemma ev_nochange c s e p s' r : lstep c s (Ev e p) = (s', r) -> r = OPre \/ r = OBadOp -> s' = s.
+Proof.
+  cbn [lstep]. destruct (in_connection s); [|intros H; inversion H; reflexivity].
+  destruct (existsb (fun q : N * list N => 27 <? N.of_nat (length (snd q))) p); [intros H; inversion H; reflexivity|].
+  destruct (radio_event _ s p) as [s1 it1]. destruct (do_end_event c s1 e) as [[s2 it2]|]; intros H [R|R]; inversion H; subst; discriminate.
+Qed.
+Lemma timeout_nochange c s s' r : lstep c s Timeout = (s', r) -> r = OPre \/ r = OBadOp -> s' = s.
+Proof.
+  cbn [lstep]. destruct (in_connection s); [|intros H; inversion H; reflexivity].
+  destruct (do_timeout c s) as [[s2 it2]|]; cbn [ok_items]; intros H [R|R]; inversion H; subst; discriminate.
+Qed.
+
+Lemma Loose_step' c s' m o r : Loose m -> r <> OCrash ->
+  (forall it, r = OItems it -> match o with Adv _ _ => existsb (fun i => match i with ICe _ _ _ _ => true | _ => false end) it = false | _ => True end) ->
+  exists m', mstep27 c m o r = (Ok, m') /\ (Loose m' \/ Tight c s' m').
+Proof. intros L Hr Ha. destruct (Loose_step c m o r L Hr Ha) as (m' & M & L'). exists m'. split; [exact M|left; exact L']. Qed.
+
+Theorem sim_step c s m o s' r :
+  cfg_ok27 c = true -> Sim c s m -> op_ok27 o = true -> lstep c s o = (s', r) -> r <> OCrash ->
+  exists m', mstep27 c m o r = (Ok, m') /\ Sim c s' m'.
+Proof.
+  intros Hc [HG HM] Ho H Hr.
+  assert (Key : exists m', mstep27 c m o r = (Ok, m') /\ (Loose m' \/ Tight c s' m')).
+  { destruct HM as [L|T].
+    - (* not judging *)
+      destruct o; try (apply Loose_step'; [exact L|exact Hr|intros it _; exact I]).
+      (* Adv *)
+      cbn [lstep] in H. destruct (st s) eqn:S; try (inversion H; subst; apply Loose_step'; [exact L|discriminate|intros it F; discriminate F]).
+      destruct (255 <? _); [inversion H; subst; apply Loose_step'; [exact L|discriminate|intros it F; discriminate F]|].
+      destruct (do_adv_received c s hdr0 body) as [[s2 it2]|] eqn:E; cbn [ok_items] in H; inversion H; subst; [|congruence].
+      destruct (adv_tight c s m hdr0 body s' it2 HG S E) as [N|[Y T]].
+      + apply Loose_step'; [exact L|discriminate|]. intros it F. inversion F; subst. exact N.
+      + unfold mstep27. fold isce. rewrite Y. eexists. split; [reflexivity|right; exact T].
+    - (* judging *)
+      destruct o; try (apply (other_tight c s m _ s' r Hc T H Hr); exact I); try discriminate Ho.
+      + (* Ev *) destruct r as [it| | |]; [|exists m; split; [reflexivity|right; rewrite (ev_nochange c s evts pdus s' _ H); [exact T|auto]] ..|congruence].
+        apply (ev_tight c Hc s m evts pdus s' it HG T Ho H).
+      + (* Timeout *) destruct r as [it| | |]; [|exists m; split; [reflexivity|right; rewrite (timeout_nochange c s s' _ H); [exact T|auto]] ..|congruence].
+        apply (timeout_tight c s m s' it T H). }
+  destruct Key as (m' & M & K). exists m'. split; [exact M|]. split; [|exact K].
+  apply (G_step c s m o s' r m' HG Ho H Hr M).
+Qed.
+
+Lemma Sim_init c : Sim c (linit c) (minit27 c).
+Proof.
+  split; [|left; left; reflexivity].
+  split; [reflexivity|]. split; [apply LLProofsC21.Inv_init|].
+  exists (LLSpecC28.minit28 c). split; [apply LLProofsC28.R_init|apply LLProofsC28Air.TB_init].
+Qed.
+
+Theorem monitor27_accepts_env c : cfg_ok27 c = true ->
+  forall ops s m, Sim c s m -> env27 c s ops = true -> mrun27 c m (lrun c s ops) = Ok.
+Proof.
+  intros Hc. induction ops as [|o t IH]; intros s m HS He; [reflexivity|].
+  cbn [env27] in He. cbn [lrun]. destruct (lstep c s o) as [s1 r] eqn:E. cbn [fst snd] in He.
+  apply andb_prop in He. destruct He as [He Ht]. apply andb_prop in He. destruct He as [Ho Hn].
+  assert (Hr : r <> OCrash) by (intros ->; discriminate Hn).
+  destruct (sim_step c s m o s1 r Hc HS Ho E Hr) as (m1 & M1 & HS1).
+  cbn [mrun27]. rewrite M1. apply IH; assumption.
+Qed.
+
+Theorem monitor27_accepts_partial c ops :
+  cfg_ok27 c = true -> env27 c (linit c) ops = true -> accepts27 c (trace_of c ops).
+Proof. intros Hc He. unfold accepts27, trace_of. apply (monitor27_accepts_env c Hc ops _ _ (Sim_init c) He). Qed.
